@@ -224,6 +224,7 @@ func c15(r *mon.Run) {
 		gen.Chain(gen.Field("y"), gen.StFlatten(), fn), gen.Chain(x(), gen.StListStar(), gen.StField("missing")), gen.Chain(x(), gen.StFilter(gen.Cmp("==", gen.Field("k"), gen.LitJSON("3")))),
 		gen.Field("missing"), gen.Chain(gen.Field("o"), gen.StField("missing")), gen.Chain(x(), gen.StIndex(9)), gen.LitJSON("null"), gen.Chain(gen.Field("o"), gen.StField("p")), gen.Chain(x(), gen.StIndex(0)),
 		gen.LitJSON("16777217"), gen.LitJSON("[123456789, 16777217]"),
+		gen.Raw("it's"), gen.MultiList(gen.Raw("a'b"), gen.Field("k")), gen.Chain(x(), gen.StFilter(gen.Cmp("!=", gen.Field("k"), gen.Raw("it's")))),
 	}
 	Bs := []*gen.Expr{
 		gen.Chain(nil, gen.StIndex(0)), gen.Chain(nil, gen.StIndex(1)), gen.Chain(nil, gen.StIndex(-1)), gen.Chain(nil, gen.StIndex(0), gen.StField("k")), gen.Func("length", gen.Current()), gen.Chain(nil, gen.StSliceS("0", "1", "")),
@@ -232,6 +233,7 @@ func c15(r *mon.Run) {
 		gen.Chain(gen.Field("a"), gen.StFunc("type", gen.Current())), gen.Chain(gen.Field("a"), gen.StFunc("not_null", gen.Current(), gen.Raw("n/a"))), gen.Chain(gen.Field("a"), gen.StFunc("length", gen.Current())),
 		gen.Chain(gen.Field("a"), gen.StField("b"), gen.StFunc("to_string", gen.Current())), gen.Chain(nil, gen.StIndex(0), gen.StFunc("type", gen.Current())), gen.Chain(gen.Field("k"), gen.StFunc("to_array", gen.Current())),
 		gen.Cmp("==", gen.Current(), gen.LitJSON("16777217")), gen.Func("to_string", gen.Current()), gen.Func("contains", gen.Current(), gen.LitJSON("123456789")),
+		gen.MultiList(gen.Current(), gen.Raw("o'k")), gen.Cmp("==", gen.Current(), gen.Raw("it's")), gen.Func("not_null", gen.Chain(nil, gen.StIndex(7)), gen.Raw("o'k'")),
 	}
 	var sdocs []interface{}
 	for bad := -1; bad < 4; bad++ {
